@@ -258,6 +258,8 @@ def gen_C05(v, n):
         inp = {"s": rng.choice([s, s, s, label + ":" + s]), "s2": s2}
         if rng.random() < 0.3:      # Sids of the same string and other types asked for their path first
             inp["pre"] = [l2 + ":" + s for l2 in v.labels if l2 != label and len(v.tdict[l2]) == len(fields)]
+        if i % 7 == 3:              # ... and UNDEFINED Sids that have the uri of the typed one ('nosuchtype:<type>:<string>')
+            inp["pre"] = inp.get("pre", []) + ["nosuchtype:" + label + ":" + s, "x:" + s, ":" + s]
         out.append(_op("C05", inp))
     return out
 
